@@ -7,6 +7,7 @@ import Py4hwV.Emit.Hier
      check             parsed text = `HierSrc.emit` (decidable equality) and every condition of `CertSrc.checks` on
                        `HierSrc.cert` (the sources-first order of the assigns is computed here and stored in `vorder`)
                        and `HierSrc.modsOKb` -> ok | text-differs … | fails <names of failed conditions>
+     vorder            the computed sources-first order
      repr              the Lean terms of the description and of the parsed text (used to write the examples of Props/C01Hier.lean) -/
 open Proto V FlatM
 
@@ -45,6 +46,11 @@ def toGKind : List SExp → Option GKind
       let o ← (match op with | "and" => some NOp.and | "or" => some NOp.or | "nor" => some NOp.nor | _ => none)
       some (.nary o (← nats? ins) (← nat? r) (← nats? ts) (← nat? mid))
   | [.atom "dm", m, a, b, r] => do some (.dm ((← nat? m) != 0) (← nat? a) (← nat? b) (← nat? r))
+  | [.atom "equal", a, b, r, xr, m, x, y, m0, m1, m2, m3, .list bits, .list ts, nmid] => do
+      some (.equal (← nat? a) (← nat? b) (← nat? r) (← nat? xr) (← nat? m) (← nat? x) (← nat? y) (← nat? m0) (← nat? m1) (← nat? m2)
+        (← nat? m3) (← nats? bits) (← nats? ts) (← nat? nmid))
+  | [.atom "eqc", a, v, r, .list bits, .list ns, .list ts] => do
+      some (.eqc (← nat? a) (← nat? v) (← nat? r) (← nats? bits) (← nats? ns) (← nats? ts))
   | [.atom "nand2", a, b, r, t] => do some (.nand2 (← nat? a) (← nat? b) (← nat? r) (← nat? t))
   | [.atom "nor2", a, b, r, t] => do some (.nor2 (← nat? a) (← nat? b) (← nat? r) (← nat? t))
   | [.atom "xor2", a, b, r, m, x, y, m0, m1, m2, m3] => do
@@ -72,13 +78,17 @@ def toMod {χ : Type} (f : SExp → Option χ) : SExp → Option (FlatM.Mod χ)
              children := ← cs.mapM f }
   | _ => none
 
-def toHChild : SExp → Option HChild
-  | .list [.atom "sub", .atom i, m] => do some (.sub i (← toMod toGChild m))
-  | x => do some (.g (← toGChild x))
+def toChildN : (n : Nat) → SExp → Option (ChildN n)
+  | 0, x => toGChild x
+  | n + 1, .list [.atom "sub", .atom i, m] => do some (.sub i (← toMod (toChildN n) m))
+  | _ + 1, x => do some (.g (← toGChild x))
 
+/-- `(hsrc depth clk (widths …) <mod> (order …))`; a block whose nesting is shallower than its position allows is read at the depth
+    of its position (its children are wrapped, the emitted text is the same) -/
 def toHSrc : SExp → Option HierSrc
-  | .list [.atom "hsrc", .atom clk, .list (.atom "widths" :: ws), top, .list (.atom "order" :: od)] => do
-      some { clk := clk, widths := ← nats? ws, top := ← toMod toHChild top, order := ← nats? od, vorder := [] }
+  | .list [.atom "hsrc", dp, .atom clk, .list (.atom "widths" :: ws), top, .list (.atom "order" :: od)] => do
+      let n ← nat? dp
+      some { depth := n, clk := clk, widths := ← nats? ws, top := ← toMod (toChildN n) top, order := ← nats? od, vorder := [] }
   | _ => none
 
 /-- a sources-first order of the assigns (quadratic Kahn); assigns in a cycle are appended at the end (the check then fails) -/
@@ -118,9 +128,13 @@ def stepS (ss : Sess) (line : String) : Sess × String :=
         if bad.isEmpty then (ss, "ok") else (ss, "fails " ++ ",".intercalate (bad.map (·.1)))
       else (ss, "text-differs " ++ ((firstDiff d s.emit).replace "\n" " "))
     | _, _ => (ss, "bad-op")
+  else if line == "vorder" then
+    match ss.s with
+    | some s => (ss, " ".intercalate (s.vorder.map toString))
+    | none => (ss, "bad-op")
   else if line == "repr" then
     match ss.d, ss.s with
-    | some d, some s => (ss, ((reprStr s).replace "\n" " ") ++ " /// " ++ ((reprStr d).replace "\n" " "))
+    | some d, some _ => (ss, (reprStr d).replace "\n" " ")
     | _, _ => (ss, "bad-op")
   else (ss, "bad-op")
 
